@@ -385,6 +385,55 @@ fn gen_case(rng: &mut Rng, long: bool) -> T {
     T::l(vec![cfg, db, T::l(table.iter().map(|t| t.t()).collect()), T::l(ops)])
 }
 
+/// Directed family: one independent transaction colliding with TWO pooled transactions whose
+/// subtrees have different gas, for every small (tip, gas) combination: the newcomer must be
+/// strictly better (tip per gas) than EACH of them, whatever their absolute tips are.
+fn multi_collision_cases() -> Vec<T> {
+    let exact = |txid: u64, idx: u64, owner: u64, amount: u64, asset: u64| {
+        T::l(vec![T::i(0), T::l(vec![T::n(txid), T::n(idx)]), T::n(owner), T::n(amount), T::n(asset)])
+    };
+    let db_in = |k: u64| {
+        let (t, i, o, a, s) = db_coin(k);
+        exact(t, i, o, a, s)
+    };
+    let cfg = T::l(vec![T::n(8u64), T::n(200u64), T::n(200u64), T::n(3u64), T::b(true), T::n(0u64)]);
+    let db = T::l(vec![
+        T::l((0..DB_COINS)
+            .map(|k| {
+                let (t, i, o, a, s) = db_coin(k);
+                T::l(vec![T::l(vec![T::n(t), T::n(i)]), T::l(vec![T::n(o), T::n(a), T::n(s)])])
+            })
+            .collect()),
+        T::l(vec![T::l(vec![T::n(1u64), T::n(5u64)]), T::l(vec![T::n(2u64), T::n(5u64)])]),
+        T::list_n(&[1u64, 2]),
+        T::list_n(&[3u64]),
+        T::list_n(&[50u64]),
+    ]);
+    let mut cases = vec![];
+    let shapes: [(u64, u64); 4] = [(20, 10), (10, 1), (3, 2), (9, 9)];
+    for (ta, ga) in shapes {
+        for (tb, gb) in shapes {
+            for (tc, gc) in [(5u64, 1u64), (15, 10), (10, 9), (4, 2), (2, 1), (11, 1)] {
+                let mk = |id: u64, ins: Vec<T>, tip: u64, gas: u64| Tx { id, ins, outs: vec![], blob: None, tip, gas, price: 1, size: 1 };
+                let table = vec![
+                    mk(1, vec![db_in(0)], ta, ga),
+                    mk(2, vec![db_in(1)], tb, gb),
+                    mk(3, vec![db_in(0), db_in(1)], tc, gc),
+                ];
+                let ops = vec![
+                    T::l(vec![T::i(0), T::n(0u64)]),
+                    T::l(vec![T::i(0), T::n(1u64)]),
+                    T::l(vec![T::i(0), T::n(2u64)]),
+                ];
+                cases.push(T::l(vec![cfg.clone(), db.clone(), T::l(table.iter().map(|t| t.t()).collect()), T::l(ops)]));
+            }
+        }
+    }
+    cases
+}
+
 pub fn gen(_prop: &str, rng: &mut Rng, n: u64, tier: &str) -> Vec<T> {
-    (0..n).map(|_| gen_case(rng, tier == "thorough")).collect()
+    let mut cases = multi_collision_cases();
+    cases.extend((0..n).map(|_| gen_case(rng, tier == "thorough")));
+    cases
 }
